@@ -250,6 +250,26 @@ func Corruptions(p *Program) ([]*Program, []Corruption) {
 				})
 			}
 		}
+		// a step that depends on one of its own later outputs: a cycle inside one step
+		self := func(stage, output string) *Val {
+			return ExprVal(&Expr{K: "out", Step: s.ID, Stage: stage, Output: output})
+		}
+		emit("self-cycle-wait-for", "step "+s.ID+" waits for its own success output", func(q *Program) bool {
+			q.Steps[i].WaitFor = self("outputs", "success")
+			return true
+		})
+		emit("self-cycle-input", "an input field of step "+s.ID+" refers to the step's own output", func(q *Program) bool {
+			q.Steps[i].Input.Set("any2", self("outputs", "success"))
+			return true
+		})
+		emit("self-cycle-enabled", "`enabled` of step "+s.ID+" refers to the step's own closed.result", func(q *Program) bool {
+			q.Steps[i].Enabled = ExprVal(&Expr{K: "out", Step: s.ID, Stage: "closed", Output: "result", Path: []string{"cancelled"}})
+			return true
+		})
+		emit("self-cycle-under-optional-tag", "an input field of step "+s.ID+" wait-optionally refers to the step's own output", func(q *Program) bool {
+			q.Steps[i].Input.Set("any2", &Val{K: "waitopt", Expr: &Expr{K: "out", Step: s.ID, Stage: "outputs", Output: "success"}})
+			return true
+		})
 		emit("stop-if-without-cancel-handler", "`stop_if` on step "+s.ID+" whose plugin step has no cancellation handler (the lifecycle disables the field)", func(q *Program) bool {
 			var src *Expr
 			if i > 0 && (q.Steps[i-1].Kind == "plugin" || q.Steps[i-1].Kind == "") {
